@@ -12,6 +12,15 @@ HARNESS = "h_codec"
 QUICK_LEVEL = "thorough"      # the larger case set costs only seconds
 THOROUGH_SEEDS = 4
 GEN = [crc_table.gen, constants.gen]
+
+
+def _codec_consts():
+    # h_codec.c includes the literal-call table that C15's generator writes
+    from props import C15
+    return C15.gen_consts()
+
+
+GEN.append(_codec_consts)
 TIE = ['Ufw.Tie.Misc']
 GEN_OBLIGATIONS = ["Ufw.Lemmas.Crc.table_length", "Ufw.Lemmas.Crc.table_eq_bitwise (256 closed instances over the regenerated table)",
                    "Ufw.Lemmas.Crc.octet_formula", "Ufw.Lemmas.Crc.index_eq"]
